@@ -29,7 +29,7 @@ def main():
     paths, rp = core.export_paths("bad", 6, 4)
     if not paths:
         raise tlc.MachineryError("no bad-argument paths exported")
-    cells = {(p[-3]["entry"], p[-3]["slot"], p[-3]["kind"]) for p in paths}
+    cells = {(p[-3]["entry"], p[-3]["slot"], p[-3]["kind"], p[-3]["with"]) for p in paths}
     jobs = core.path_jobs(paths, "b", [])
     # random histories with invalid callable results
     n_rand = 1500 if thorough else 300
@@ -60,7 +60,7 @@ def main():
             tags = core.failure_tags(tr, err)
             b = ev["a"] if ev["a"]["op"] == "bad" else (bad_before[-1] if bad_before else ev["a"])
             if b["op"] == "bad":
-                tags |= {"entry:" + b["entry"], "slot:" + b["slot"], "kind:" + b["kind"]}
+                tags |= {"entry:" + b["entry"], "slot:" + b["slot"], "kind:" + b["kind"], "with:" + b.get("with", "none")}
             rep.violation(core.describe_failure(tr, err),
                           {"kind": tr["kind"], "auto_index": tr["auto_index"], "ops": [e["a"] for e in tr["events"][:step]],
                            "clause": err["clause"], "expected": err["expected"]}, tags=tags)
@@ -73,7 +73,7 @@ def main():
         "rule": "every cell of the specification's matrix BadCells (entry point {ctor, setter, insert measurement=, update/update_all/handle.update static and callable} x slot "
                 "{time, measurement, tag key, tag value, field key, field value} x kind {int, float, bool, bytes, None, list, dict, str, each also falsy}) after 0, 1 and 2 inserts, "
                 "x 4 configurations, followed by all() and count(); plus %d random histories with callables returning invalid values; distinct = distinct cells" % n_rand,
-        "samples": [{"entry": c[0], "slot": c[1], "kind": c[2]} for c in sorted(cells)[::97][:5]],
+        "samples": [{"entry": c[0], "slot": c[1], "kind": c[2], "valid_companion_argument": c[3]} for c in sorted(cells)[::97][:6]],
         "exhaustive": True, "cells": len(cells), "tlc_paths": len(paths), "failures_owned_by_other_properties": cut,
         "checker_cmd": rp.cmd,
     }
